@@ -8,6 +8,11 @@
 (*  "Verification never confirms a key/value pair that is absent from the  *)
 (*   state with that root, whatever proof nodes are supplied."             *)
 (*        -> VerifySpec over an ARBITRARY set of byte strings, Sound       *)
+(*  "adversarial proof node sets (omitted, duplicated, foreign or altered   *)
+(*   nodes)" -> Supplies: honest, honest + a foreign state's blobs, foreign *)
+(*   blobs + root node, honest minus one blob, honest + the DIGESTS of the  *)
+(*   hashed values as items of their own (with the digest also queried as   *)
+(*   if it were the value)                                                  *)
 (* A proof is a set of blobs; verifying (k, v) is walking the blobs from   *)
 (* the one whose hash is the root (TrieCodec!Lookup) and reaching v.       *)
 (***************************************************************************)
@@ -71,13 +76,24 @@ Complete ==
 (* the honest proof mixed with every blob of a FOREIGN state (either        *)
 (* version), foreign blobs only -- nothing but the state's own pairs is     *)
 (* confirmed                                                                *)
+(* the 32-byte DIGESTS of the values the state stores by hash, offered as    *)
+(* proof items of their own: a verifier that files a short item under its   *)
+(* own bytes (instead of under its hash) would read the digest back as the  *)
+(* value of the key                                                         *)
+Digests(mm, ver) == {H(mm[k]) : k \in {x \in DOMAIN mm : ValueHashed(mm[x], ver)}}
+AllDigests == {H(v) : v \in {x \in PVals : Len(x) > 32}}
+
 Supplies ==
   LET N == ProofNodes(pm, pv1, PAll)
       F == Rows(pm2, TRUE) \cup Rows(pm2, FALSE)
-  IN {N, N \cup F, F, F \cup {RootEnc(pm, pv1)}} \cup {N \ {x} : x \in N} \cup {(N \ {x}) \cup F : x \in N}
+      D == AllDigests
+  IN {N, N \cup F, F, F \cup {RootEnc(pm, pv1)}, N \cup D} \cup {N \ {x} : x \in N} \cup {(N \ {x}) \cup F : x \in N}
+     \cup {(N \ {x}) \cup D : x \in N}
 
+(* ... and the digest is also offered as if it were the value: the state     *)
+(* holds the value, not its digest                                          *)
 Sound ==
-  \A N \in Supplies : \A k \in PAll : \A v \in PVals \cup {<<>>} :
+  \A N \in Supplies : \A k \in PAll : \A v \in PVals \cup {<<>>} \cup AllDigests :
     VerifySpec(N, Root(pm, pv1), k, v) => (k \in DOMAIN pm /\ pm[k] = v)
 
 PView == <<pm, pv1, pm2>>
@@ -88,6 +104,7 @@ PView == <<pm, pv1, pm2>>
 
 Queries(N, mm, ver) ==
   LET Q == {<<k, v>> : k \in PAll, v \in PVals \cup {<<>>}}
+           \cup {<<k, H(mm[k])>> : k \in {x \in DOMAIN mm : ValueHashed(mm[x], ver)}}   \* (key, digest of its value)
       qs == SortedSeq({q[1] \o <<-2>> \o q[2] : q \in Q})   \* only to fix an order
   IN [i \in 1..Len(qs) |->
         LET q == CHOOSE x \in Q : x[1] \o <<-2>> \o x[2] = qs[i]
@@ -98,10 +115,18 @@ CaseOf(mm, ver, m2, K) ==
   LET N == ProofNodes(mm, ver, K)
       F == Rows(m2, ver)
       xs == SortedSeq(N \ {RootEnc(mm, ver)})
-      Adv == <<N, N \cup F, F \cup {RootEnc(mm, ver)}>> \o [i \in 1..Len(xs) |-> N \ {xs[i]}]
+      D == Digests(mm, ver)
+      \* without the value blobs: what proof.Generate emits today (see known findings), plus the digests
+      NV == N \ {mm[k] : k \in {x \in DOMAIN mm : ValueHashed(mm[x], ver)}}
+      Adv == <<N, N \cup F, F \cup {RootEnc(mm, ver)}>>
+             \o (IF D = {} THEN <<>> ELSE <<N \cup D, NV \cup D>>)
+             \o [i \in 1..Len(xs) |-> N \ {xs[i]}]
+      Names == <<"honest", "honest+foreign-state", "foreign-state+root-node">>
+               \o (IF D = {} THEN <<>> ELSE <<"honest+value-digests", "honest-without-values+value-digests">>)
+               \o [i \in 1..Len(xs) |-> "honest-minus-one-blob"]
   IN [entries |-> PEntries(mm), v1 |-> ver, keys |-> SortedSeq(K), root |-> Root(mm, ver),
       proof |-> SortedSeq(N),
-      supplies |-> [i \in 1..Len(Adv) |-> [nodes |-> SortedSeq(Adv[i]), queries |-> Queries(Adv[i], mm, ver)]]]
+      supplies |-> [i \in 1..Len(Adv) |-> [name |-> Names[i], nodes |-> SortedSeq(Adv[i]), queries |-> Queries(Adv[i], mm, ver)]]]
 
 GPInit == /\ pm = EmptyMap /\ pv1 = FALSE /\ pm2 = EmptyMap /\ hist = <<>> /\ done = FALSE
 RandMap == LET D == RandomElement(SUBSET PKeys) IN [k \in D |-> RandomElement({v \in PVals : Len(hist) >= 0})]
